@@ -119,7 +119,7 @@ PlanFrom(ms, now, q) ==
 Man == [kind : {"imp"}, t : Times, v : 1..3] \cup [kind : {"burn"}, t : Times, dur : Durations, v : 1..3]
 Init ==
   /\ mans \in UNION {[1..n -> Man] : n \in 0..MaxMans}
-  /\ Chrono(mans) /\ \A i \in 1..Len(mans) : mans[i].t > 0
+  /\ Chrono(mans) /\ \A i \in 1..Len(mans) : mans[i].t >= 0      \* a maneuver may be dated at the epoch itself
   /\ query \in Times \cup {-t : t \in Times} \cup {0}
   /\ plan = PlanFrom(mans, 0, query)
 Next == UNCHANGED vars
